@@ -411,7 +411,22 @@ impl Prop for C05 {
                 }
             }
         };
-        let text = gen_text_case(rng, max_lines, true);
+        let mut text = gen_text_case(rng, max_lines, true);
+        // very rarely: more than 65536 distinct lines overall (fewer per side)
+        if rng.below(if tier == Tier::Quick { 130_000 } else { 1_500_000 }) == 0 {
+            let (o, n) = crate::gen::gen_many_distinct(rng);
+            let render = |xs: &[u32]| -> Vec<u8> {
+                let mut t = Vec::new();
+                for x in xs {
+                    t.extend_from_slice(format!("l{}\n", x).as_bytes());
+                }
+                t
+            };
+            text.old = render(&o);
+            text.new = render(&n);
+            text.alg = *rng.pick(&[crate::gen::Alg::Myers, crate::gen::Alg::Patience]);
+            text.hasher.0 = 0;
+        }
         let header = if rng.chance(1, 2) {
             Some((
                 rng.pick(&["a.txt", "old", "a b\t2020-01-01", ""]).to_string(),
